@@ -13,8 +13,10 @@ import SradModel.Drv.HostLoop
 import SradModel.Drv.Topic
 import SradModel.Drv.Eon
 import SradModel.Drv.Metric
+import SradModel.Drv.Birth
+import SradModel.Drv.Cmd
 
-open Srad Srad.Drv
+open Srad Srad.Drv Srad.BirthDrv Srad.Drv.CmdD
 
 structure DState where
   reseq : Reseq.St Nat := Reseq.init
@@ -23,6 +25,8 @@ structure DState where
   derive : Option Derive.Schema := none
   hostloop : HLState := {}
   eon : EonD := {}
+  birth : BWorld := {}
+  cmd : CmdSt := {}
 
 def step (st : DState) (line : String) : DState × String :=
   match words line with
@@ -36,6 +40,12 @@ def step (st : DState) (line : String) : DState × String :=
   | "admit" :: rest => (st, stepAdmit rest)
   | "topic" :: rest => (st, stepTopic rest)
   | "metric" :: rest => (st, stepMetric rest)
+  | "birth" :: rest =>
+    let (b, o) := stepBirth st.birth rest
+    ({ st with birth := b }, o)
+  | "cmd" :: rest =>
+    let (c, o) := stepCmd st.cmd rest
+    ({ st with cmd := c }, o)
   | "eon" :: rest =>
     let (e, o) := stepEon st.eon rest
     ({ st with eon := e }, o)
